@@ -58,11 +58,14 @@ Proof.
     destruct (sp_body f (c2, refs) inp (snd i) [] (cl_body b)); try reflexivity.
     apply none_check_same. pose proof (FO (fst i)) as F'. now rewrite E1, E2 in F'.
   - intros args locs rest. destruct rest as [|s more]; simpl; [reflexivity|].
-    destruct s as [e|e h].
+    destruct s as [e|e h|e c].
     + rewrite (IHe args locs e). destruct (sp_expr f (c2, refs) inp args locs e); try reflexivity. apply IHb.
     + rewrite (IHe args locs e). destruct (sp_expr f (c2, refs) inp args locs e); try reflexivity; [apply IHb|].
       destruct (catchable k); [|reflexivity].
       rewrite (IHe args locs h). destruct (sp_expr f (c2, refs) inp args locs h); try reflexivity. apply IHb.
+    + rewrite (IHe args locs e), (IHe args locs c).
+      destruct (sp_expr f (c2, refs) inp args locs e); try reflexivity;
+        destruct (sp_expr f (c2, refs) inp args locs c); try reflexivity. apply IHb.
 Qed.
 
 (** in every quiescent state the inputs sit on cached cells *)
@@ -81,12 +84,13 @@ Theorem flags_never_change_a_result fuel st1 st2 i r1 r2 st1' st2' :
   flags_only (s_cells st1) (s_cells st2) -> s_refs st1 = s_refs st2 ->
   (forall j, lookup_data (input_data st1) j = lookup_data (input_data st2) j) ->
   eval_top fuel st1 i = (r1, st1') -> eval_top fuel st2 i = (r2, st2') ->
-  r1 <> OutOfFuel -> r2 <> OutOfFuel -> r1 <> Err KDeep -> r2 <> Err KDeep -> r1 = r2.
+  r1 <> OutOfFuel -> r2 <> OutOfFuel -> r1 <> Err KDeep -> r2 <> Err KDeep ->
+  s_masks st1' = s_masks st1 -> s_masks st2' = s_masks st2 -> r1 = r2.
 Proof.
-  intros Q1 Q2 FO Hrefs Hinp E1 E2 N1 N2 K1 K2.
+  intros Q1 Q2 FO Hrefs Hinp E1 E2 N1 N2 K1 K2 Hm1 Hm2.
   pose proof Q1 as ((I1 & _) & _). pose proof Q2 as ((I2 & _) & _).
-  destruct (eval_top_sim _ _ _ _ _ E1 N1 I1) as (_ & _ & G1).
-  destruct (eval_top_sim _ _ _ _ _ E2 N2 I2) as (_ & _ & G2).
+  destruct (eval_top_sim _ _ _ _ _ E1 N1 I1) as (_ & _ & G1). specialize (G1 Hm1).
+  destruct (eval_top_sim _ _ _ _ _ E2 N2 I2) as (_ & _ & G2). specialize (G2 Hm2).
   assert (Hex : forall st r, r <> OutOfFuel -> r <> Err KDeep ->
             agrees r (fun g => spec_eval g st i) -> exists g, spec_eval g st i = r).
   { intros st r N K G. destruct r as [v|k|]; simpl in G; [exact G| |congruence].
